@@ -153,7 +153,7 @@ theorem compose_congr {F F' G G' R R' : PDiag O A} (hF : F.wf = true) (hG : G.wf
 /-- juxtaposition respects isomorphism (plain level) -/
 theorem tensor_congr {F F' G G' : PDiag O A} (hF : F.wf = true) (h1 : F ≅ F') (h2 : G ≅ G') :
     PDiag.juxt F G ≅ PDiag.juxt F' G' :=
-  juxt_congr hF h1 h2
+  juxt_iso_congr hF h1 h2
 
 /-- composition respects isomorphism (strict level, possibly different lawful backends) -/
 theorem compose_congr_strict [DecidableEq O] (B B' : Backend) (hB : B.Lawful) (hB' : B'.Lawful)
@@ -169,7 +169,7 @@ theorem tensor_congr_strict (f f' g g' r r' : OHG O A) (hf : f.wf = true) (hf' :
     (h1 : f.toPlain ≅ f'.toPlain) (h2 : g.toPlain ≅ g'.toPlain)
     (e : OHG.tensor f g = .ok r) (e' : OHG.tensor f' g' = .ok r') : r.toPlain ≅ r'.toPlain := by
   rw [C02.tensor_toPlain f g r hf e, C02.tensor_toPlain f' g' r' hf' e']
-  exact juxt_congr (wfP hf) h1 h2
+  exact juxt_iso_congr (wfP hf) h1 h2
 
 /-- the composite depends on its operands only up to `≅`: here `exH'` is `exH` with its two nodes
     renumbered -/
@@ -353,9 +353,6 @@ theorem twist_natural_right [DecidableEq O] (B : Backend) (hB : B.Lawful) (g : O
   | panic m => rw [ht] at h2; cases h2
 
 /-! ### 6. the hexagon identities -/
-
-/-- the plain diagram of an identity -/
-def idP (w : List O) : PDiag O A := ⟨w, [], List.range w.length, List.range w.length⟩
 
 /-- composing with a diagram whose plain form is a spider with identity output leg only re-reads
     the input interface of the second operand -/
